@@ -204,6 +204,7 @@ class QConn:
         self.cmac, self.smac = cmac, smac
         self.t = t0
         self.items, self.expect, self.expect_idx, self.dirs = [], [], [], []
+        self.early_expect = []
         self.item_gen, self.item_short, self.item_pn = [], [], []
         klen, h, kind = SUITES[suite]
         n = h().digest_size
@@ -214,8 +215,9 @@ class QConn:
         self.gens = {0: [self.k["cap"]], 1: [self.k["sap"]]}
         self.early = None
         if early:
-            # 0-RTT keys belong to the resumed session's suite = first offered suite here
-            eklen, eh, ekind = SUITES[self.offer[0]]
+            # 0-RTT keys belong to the resumed session's suite, which is the suite the server selects when it accepts the
+            # early data (RFC 8446 4.2.11) - wherever that suite stands in the client's offer
+            eklen, eh, ekind = SUITES[suite]
             self.early_sec = rng.randbytes(eh().digest_size)
             self.early = Keys(self.early_sec, eklen, eh, ekind)
         self.cr = rng.randbytes(32)
@@ -268,6 +270,9 @@ class QConn:
         if stream_bytes:
             self.expect.append((self.t, bool(from_server), stream_bytes))
             self.expect_idx.append(len(self.items) - 1)
+            if getattr(self, "_cur_early", False):
+                self.early_expect.append(len(self.expect) - 1)       # a datagram whose stream data travelled as 0-RTT
+        self._cur_early = False
 
     def q_initial(self, from_server, frames, pnlen=1, token=b"", pad_to=0, jump=0):
         keys = self.si if from_server else self.ci
@@ -282,6 +287,7 @@ class QConn:
         self.cur.append(long_pkt(keys, 2, dcid, scid, self.nextpn("sh" if from_server else "ch", jump), pnlen, frames))
 
     def q_0rtt(self, frames, pnlen=1, jump=0):
+        self._cur_early = True
         self.cur.append(long_pkt(self.early, 1, self.cur_dcid_c, self.scid_c, self.nextpn("ca", jump), pnlen, frames))
 
     def q_1rtt(self, from_server, frames, pnlen=1, jump=0):
@@ -315,7 +321,7 @@ class QConn:
             self.key_update(from_server, follow=True)
 
     # -------- handshake
-    def handshake(self, ch_split=None, retry=False, zero_rtt=None, coalesce_server=True, ch_extra=b""):
+    def handshake(self, ch_split=None, retry=False, zero_rtt=None, coalesce_server=True, ch_extra=b"", ch_multi=None):
         """ch_split(n) → [(start, end), …] fragment order of the ClientHello (one CRYPTO frame each);
         zero_rtt: list of (sid, off, data) sent as 0-RTT STREAM frames in the first flight"""
         rng = self.rng
@@ -330,7 +336,7 @@ class QConn:
 
         def first_flight(token=b""):
             fr = ch_frames()
-            if ch_split and rng.random() < 0.5 and len(fr) > 1:          # fragments over several packets/datagrams
+            if ch_split and (rng.random() < 0.5 if ch_multi is None else ch_multi) and len(fr) > 1:   # fragments over several packets/datagrams
                 for i, f in enumerate(fr):
                     self.q_initial(0, f, token=token, pad_to=1162)
                     self.flush(0)
@@ -519,11 +525,25 @@ def random_connection(rng, idx=0, v6=None, suite=None, features=None):
         offer = [f["suite"]] + [c for c in offer if c != f["suite"]]
     elif f["offer_order"] == "shuffled":
         rng.shuffle(offer)
+    # 0-RTT with the resumed suite NOT first in the offer is conformant, but the tool derives the early keys with the first
+    # offered suite before the ServerHello and never retries: that early data is lost (open known finding of C02). Only C02's
+    # own oracle generates it (`early_suite_anywhere`); everywhere else the resumed suite leads the offer.
+    # client and server on one host (loopback capture): the two ends differ in the port only
+    f.setdefault("loopback", rng.random() < 0.05)
+    # a packet number exactly half a window ahead of the expected one in a 1-byte encoding (a gap of 128 packets missing
+    # from the capture): the boundary case of RFC 9000 A.3's first test
+    f.setdefault("pn_half", rng.random() < 0.1)
+    f.setdefault("early_suite_anywhere", False)
+    if f["zero_rtt"] and not f["early_suite_anywhere"]:
+        offer = [f["suite"]] + [c for c in offer if c != f["suite"]]
+    f["early_suite_first"] = offer[0] == f["suite"]
     if f["v6"]:
         cip = bytes([0x20, 0x01, 0x0d, 0xb8]) + rng.randbytes(12)
         sip = bytes([0x20, 0x01, 0x0d, 0xb8]) + rng.randbytes(12)
     else:
         cip, sip = bytes([10, 1, rng.randrange(256), 1 + rng.randrange(250)]), bytes([192, 168, rng.randrange(256), 1 + rng.randrange(250)])
+    if f["loopback"]:
+        cip = sip = (bytes(15) + b"\x01") if f["v6"] else bytes([127, 0, 0, 1])
     pn_start = {}
     ep = f.get("endpoints") or {}
     cip, sip = ep.get("cip", cip), ep.get("sip", sip)
@@ -540,6 +560,8 @@ def random_connection(rng, idx=0, v6=None, suite=None, features=None):
         def split(n, mode=f["ch_split"]):
             k = rng.randrange(2, 5)
             pts = sorted(rng.sample(range(1, n), k - 1))
+            if f.get("ch_cuts"):
+                pts = [p for p in f["ch_cuts"] if 0 < p < n]      # the same client software cuts at the same offsets
             segs = list(zip([0] + pts, pts + [n]))
             if mode == "desc":
                 segs.reverse()
@@ -547,7 +569,8 @@ def random_connection(rng, idx=0, v6=None, suite=None, features=None):
                 rng.shuffle(segs)
             return segs
     zr = [(0, 0, rng.randbytes(rng.randrange(1, 200)))] if f["zero_rtt"] else None
-    c.handshake(ch_split=split, retry=f["retry"], zero_rtt=zr, coalesce_server=rng.random() < 0.7)
+    c.handshake(ch_split=split, retry=f["retry"], zero_rtt=zr, coalesce_server=rng.random() < 0.7,
+                ch_multi=f.get("ch_multi"))
     offs = {}
     n = rng.randrange(4, 14) if not f.get("long") else rng.randrange(280, 420)      # long flows cross the 1-byte pn window
     ku_at = sorted(rng.sample(range(1, n), min(f["key_updates"], n - 1)))
@@ -570,6 +593,14 @@ def random_connection(rng, idx=0, v6=None, suite=None, features=None):
             off = offs.get((d, sid), 0)
             offs[(d, sid)] = off + len(data)
             chunks.append((sid, off, data, rng.random() < 0.1))
+        if f["pn_half"] and i == n // 2 and not f["pn_big"] and not f.get("long"):
+            sp = "sa" if d else "ca"
+            j1 = (128 - c.pn.get(sp, 0)) % 256          # bring the next expected number to 129 mod 256 …
+            for jump, ln in ((j1, 1 if j1 < 128 else 2), (128, 1)):   # … then jump exactly half a 1-byte window
+                data = rng.randbytes(rng.randrange(1, 60))
+                off = offs.get((d, 0), 0)
+                offs[(d, 0)] = off + len(data)
+                c.app(d, [(0, off, data, False)], pnlen=ln, jump=jump)
         if f["download"] and i == n // 2:
             for _ in range(rng.randrange(60, 90)):
                 data = rng.randbytes(rng.randrange(1000, 1200))
